@@ -405,6 +405,10 @@ fn rand_set(rng: &mut Rng) -> TokSet {
         // and does not even skip extras before the end of input
         if toks.iter().all(|t| t.immediate) { toks[0].immediate = false; }
     }
+    // WELL-FORMEDNESS the generator must accept: no two rules are the SAME token (same text, wrapper, flags,
+    // precedence, immediacy) — identical token rules are one token used by two rules, a genuine conflict
+    { let mut seen: Vec<(String, bool, bool, i32, bool)> = Vec::new();
+      toks.retain(|t| { let k = (t.re.ser(), t.is_string, t.ci, t.prec, t.immediate); if seen.contains(&k) { false } else { seen.push(k); true } }); }
     let extras = if rng.chance(1, 2) { 0 } else { rng.range(1, EXTRAS_SHAPES - 1) };
     let mut word = None;
     if with_word {
@@ -655,6 +659,9 @@ fn rand_mode_set(rng: &mut Rng) -> ModeSet {
             // every other token must still leave both modes non-empty
             if !masks.iter().enumerate().any(|(i, m)| i != y && m & 1 != 0) || !masks.iter().enumerate().any(|(i, m)| i != y && m & 2 != 0) {
                 for (i, m) in masks.iter_mut().enumerate() { if i != y && !(0..n).any(|j| j != i && toks[j].re.ser() == toks[i].re.ser()) { *m = 3; } }
+                // x became valid in both modes: `seq(x, y)` next to a plain item y would be a real LR conflict, so
+                // this set gets no follow pair
+                follow = None;
             }
         }
     }
@@ -744,6 +751,7 @@ fn run_mode_set(out: &mut impl Write, id: &str, ms: &ModeSet, strings: &mut dyn 
     let b = zoo::build_from_json(&ms.grammar(&name), None, tree_sitter_generate::OptLevel::default())?;
     let mut parser = Parser::new();
     parser.set_language(&b.language).map_err(|e| e.to_string())?;
+    if let Ok(p) = std::env::var("C14_DUMP") { let _ = std::fs::write(p, &b.parser_c); }
     writeln!(out, "mset {id} {}", ms.ser()).unwrap();
     let as_soup = TokSet { word: ms.word, extras: ms.extras, toks: ms.toks.clone() };
     let (kws, ambig) = keyword_sets(&b.parser_c, &as_soup);
@@ -921,13 +929,13 @@ fn main() {
             if parts[0].starts_with('m') {
                 let ms = ModeSet::parse(parts[0]);
                 if let Err(e) = run_mode_set(out, &id, &ms, &mut |f| { for s in &strs { f(s); } }) {
-                    writeln!(out, "skip {id} {}", e.replace('\n', " ")).unwrap();
+                    writeln!(out, "skip {id} {} {}", parts[0], e.replace('\n', " ").chars().take(160).collect::<String>()).unwrap();
                 }
                 continue;
             }
             let ts = TokSet::parse(parts[0]);
             if let Err(e) = run_set(out, &id, &ts, &mut |f| { for s in &strs { f(s); } }) {
-                writeln!(out, "skip {id} {}", e.replace('\n', " ")).unwrap();
+                writeln!(out, "skip {id} {} {}", parts[0], e.replace('\n', " ").chars().take(160).collect::<String>()).unwrap();
             }
         }
     };
